@@ -42,8 +42,8 @@ CLAIMED = {
             "trusted: scheduler carries out the cancellation, click, fnmatch, z3, pyvc encoding", "4 C17"),
     "C18": ("proof", "FileSpecHashes/NoopSpecHashes are proved against one interface with whole-view postconditions (update/invalidate pin every other key; close persists; constructor reloads); get_spec_hashes is file-backed iff use_spec_hashes is truthy; update is called only after an accepted submission (submit_backend) and in touch; previews leave every Changed() answer unchanged.",
             "trusted: sha1 as a function, json round trip, attrs constructor glue, z3, pyvc encoding; the census of other writers of .hashes is not automated yet", "4 C18"),
-    "C19": ("other", "mixed: is_valid_name is proved equal to the identifier-like language (regex semantics incl. `$`), _check_path / _has_nonprintable_char accept exactly non-empty strings and path objects without control characters (InvalidPathError otherwise, never TypeError), Workflow._add_target keeps names unique, Workflow.target / target_from_template give the target the workflow's working directory (also for templates without one) and the option precedence defaults < template < keyword. map naming, find_workflow and independence of the invoking directory are decided only by the bounded stand-in cli-invocation-directory.",
-            "assumed: Workflow()'s default working directory by frame introspection, attrs constructor glue, os.path algebra; bounded: cli-invocation-directory (one template/map workflow, three invoking locations, nested workflow file)", "4 C19"),
+    "C19": ("other", "mixed: is_valid_name is proved equal to the identifier-like language (regex semantics incl. `$`), _check_path / _has_nonprintable_char accept exactly non-empty strings and path objects without control characters (InvalidPathError otherwise, never TypeError), Workflow._add_target keeps names unique, Workflow.target / target_from_template give the target the workflow's working directory (also for templates without one) and the option precedence defaults < template < keyword; utils.find_workflow is proved to return the nearest ancestor of the invoking directory that has the file (tail-recursive spec Found/Fails, loop invariant, FileNotFoundError iff no ancestor has it, object name after the colon or `gwf`) and the lemma find-workflow-from-subdirectory gives the same file from a subdirectory. map naming and independence of the invoking directory through cli.main are decided only by the bounded stand-in cli-invocation-directory.",
+            "assumed: Workflow()'s default working directory by frame introspection, attrs constructor glue, os.path algebra, pathlib (joinpath/parent/anchor/exists/is_absolute/cwd) and str.partition uninterpreted, termination of the upward walk; bounded: cli-invocation-directory (one template/map workflow, three invoking locations, nested workflow file)", "4 C19"),
     "C20": ("other", "try_int/try_true/try_false/try_conv are proved equal to the coercion oracle (canonical decimal -> int incl. 0, yes/no/true/false -> bool, rest text); FileConfig get/set/unset/items/dump over ChainMap semantics with whole-view postconditions (unset of an unset key is a no-op); get_namespace by the two-level string proof (opaque InNs/NsKey, revealed at a cut). Flag > project configuration > default through cli.main (backend, verbosity) and the round trip across invocations are decided by the bounded stand-in cli-configuration; base.create_backend is proved to hand the selected backend's factory exactly the backend.<name>.* settings (false values included) and the working directory.",
             "trusted: int() on non-canonical spellings left open (as the statement does), ChainMap semantics as modelled, json round trip, z3 string solver for the quantifier-free cuts", "4 C20"),
 }
